@@ -242,6 +242,7 @@ func c14static(v *verifrt.T, audit bool) {
 	v.Version("v1", 4)
 	v.PutVersionFile(filepath.Join(serve, "src", "x"), "v1")
 	v.PutVersionFile(filepath.Join(serve, "other", "y"), "v1")
+	v.PutVersionFile(filepath.Join(serve, "o", "y"), "v1") // a neighbour with a short name (within reach of short paths)
 	v.PutVersionFile(filepath.Join(root, "secret"), "v1")
 	v.PutVersionFile(filepath.Join(root, "stage", "z.part"), "v1")
 	source := "src"
@@ -270,6 +271,13 @@ func c14static(v *verifrt.T, audit bool) {
 	v.Assert(v.FileIs(filepath.Join(root, "stage", "z.part"), "v1"), "C14.O3 a staged file is never deleted through the static route")
 	if source == "src" {
 		v.Assert(v.FileIs(filepath.Join(serve, "other", "y"), "v1"), "C14.O3 another source's served file is never deleted")
+	}
+	// whatever the source name of the request: the files of source "o" are
+	// deleted only by a request of source "o"
+	v.Assert(verifrt.Or(source == "o", v.FileIs(filepath.Join(serve, "o", "y"), "v1")), "C14.O3 a request can delete served files of its own source only")
+	if w.status == 200 && method == "GET" && len(w.body) > 0 {
+		// (content disclosure: what is served comes from the request's own source)
+		v.Assert(verifrt.Or(source == "o", verifrt.Or(source == "src", source == "other")), "C14.O3 a request is served files of its own source only")
 	}
 	if w.status >= 400 {
 		v.Reach("refused")
